@@ -725,6 +725,76 @@ pub fn run_sessions(rep: &mut Report, r: &mut Rng, n: u64, level: u32, scope: Sc
     }
 }
 
+/// Two downloads by the same endpoint and method on resources whose paths are easily confused,
+/// fetched block by block in alternation.  Each client must reassemble exactly its own body.
+pub fn interleaved_similar_paths(rep: &mut Report, r: &mut Rng, ids: &mut Ids) {
+    let pairs: [(&[&str], &[&str]); 6] = [(&[], &[""]), (&["a", "b"], &["a/b"]), (&["x"], &["", "x"]), (&["x"], &["x", ""]), (&["x"], &["X"]), (&["p", "q"], &["p"])];
+    for (pa, pb) in pairs.iter() {
+        for szx in [0u8, 2] {
+            rep.eval();
+            let size = szx_size(szx);
+            let witness = format!("interleaved downloads: same endpoint, GET, paths {:?} and {:?}, block size {}", pa, pb, size);
+            set_case_str(&witness);
+            let mut server = Server::new(40 + size + 12 + 9, LONG);
+            let bodies = [body_bytes(r.next_u64(), size * 3 + 7), body_bytes(r.next_u64(), size * 4 + 1)];
+            let paths = [*pa, *pb];
+            let mut got: [Vec<u8>; 2] = [Vec::new(), Vec::new()];
+            let mut done = [false, false];
+            let mut calls = [0u32, 0u32];
+            let mut failed = false;
+            let mut step = 0usize;
+            while !(done[0] && done[1]) && step < 40 && !failed {
+                let t = step % 2;
+                step += 1;
+                if done[t] {
+                    continue;
+                }
+                let mut q = ReqSpec::new(1, paths[t]);
+                let (mid, tok) = ids.next(2);
+                q.mid = mid;
+                q.token = tok;
+                q.block2 = Some(((got[t].len() / size) as u32, false, szx));
+                let body = bodies[t].clone();
+                let mut called = false;
+                let mut app = |_q: &coap_lite::CoapRequest<CEp>| {
+                    called = true;
+                    AppReply::content(body.clone())
+                };
+                let ex = server.exchange(&q.bytes(), 9, &mut app);
+                if called {
+                    calls[t] += 1;
+                }
+                let ok = match (&ex.reply, ex.block_of(CoapOption::Block2)) {
+                    (Some(rp), Some(bv)) => {
+                        let lo = got[t].len();
+                        let hi = (lo + size).min(bodies[t].len());
+                        let good = rp.payload == bodies[t][lo..hi] && rp.header.message_id == q.mid && bv.more == (hi < bodies[t].len());
+                        if good {
+                            got[t].extend_from_slice(&rp.payload);
+                            if !bv.more {
+                                done[t] = true;
+                            }
+                        }
+                        good
+                    }
+                    _ => false,
+                };
+                if !ok {
+                    rep.violation("interleaved-similar-paths:block-content", format!("transfer on path {:?}: after {} bytes the reply is {}", paths[t], got[t].len(), ex.summary()), witness.clone());
+                    failed = true;
+                }
+            }
+            if !failed {
+                if got[0] != bodies[0] || got[1] != bodies[1] || calls != [1, 1] {
+                    rep.violation("interleaved-similar-paths:reassembly", format!("bodies {}/{} of {}/{} bytes, application calls {:?}", got[0].len(), got[1].len(), bodies[0].len(), bodies[1].len(), calls), witness);
+                } else {
+                    rep.count("interleaved_similar_path_pairs_held");
+                }
+            }
+        }
+    }
+}
+
 pub fn run_c08(ctx: &mut Ctx) {
     let mut r = ctx.rng(8);
     let (level, budget, shard, nshards) = (ctx.level, ctx.budget, ctx.shard, ctx.nshards);
@@ -803,10 +873,13 @@ pub fn run_c08(ctx: &mut Ctx) {
         let m = r.urange(overhead + 28, (overhead + 400).min(1280));
         let maxblock = m - overhead - 12;
         let len_a = r.urange(2 * maxblock + 1, 6 * maxblock + 40).min(if level == 0 { 500 } else { 20000 });
+        // the new transfer must itself be block-wise (judged with ITS OWN reply overhead), otherwise
+        // the abandoned one simply stays cached, which the property does not speak about
+        let maxblock_b = m - reply_overhead(tkl, &opts_b) - 12;
         let len_b = match r.below(3) {
-            0 => r.urange(2 * maxblock + 1, 5 * maxblock + 40),
-            1 => len_a,
-            _ => r.urange(maxblock + 1, 8 * maxblock),
+            0 => r.urange(2 * maxblock_b + 1, 5 * maxblock_b + 40),
+            1 => len_a.max(maxblock_b + 1),
+            _ => r.urange(maxblock_b + 1, 8 * maxblock_b),
         };
         let path = vec!["again".to_string(), format!("{}", i % 3)];
         let a = DlCfg { ep: 5, path: path.clone(), body: body_bytes(r.next_u64(), len_a), reply_opts: opts_a, tkl, strategy: if r.bool() { Strategy::Follow } else { Strategy::Early(r.below(7) as u8) }, typ: 0, abandon_after: Some(r.urange(1, 2)), vary_tkl: false, ..DlCfg::base() };
@@ -834,6 +907,10 @@ pub fn run_c08(ctx: &mut Ctx) {
         rep.distinct(mix(&[0xAB, (len_a % 7) as u64, (len_b % 7) as u64, (sa.blocks) as u64, m as u64 % 5]));
     }
     run_sessions(rep, &mut r, (budget / 2).max(if level == 0 { 2 } else { 40 }), level, Scope::Transfer, &mut ids);
+    if shard == 0 {
+        interleaved_similar_paths(rep, &mut r, &mut ids);
+        rep.floor("interleaved_similar_path_pairs_held", 1);
+    }
     rep.floor("session_transfers_with_blockwise_reply", 1);
     rep.floor("session_transfers_with_upload_phase", 1);
     rep.floor("restarts_fragmented", 1);
@@ -921,6 +998,15 @@ pub fn run_c09(ctx: &mut Ctx) {
                     }
                     let body = body_bytes(len as u64 * 31 + szx as u64, len);
                     let abandoned = match variant {
+                        0 if len > s && idx % 3 == 0 => {
+                            // same first block(s) as the new body, different afterwards
+                            let mut a = body.clone();
+                            a.extend_from_slice(&body_bytes(555, 3 * s));
+                            for x in a.iter_mut().skip(s) {
+                                *x ^= 0x5a;
+                            }
+                            Some((a, szx, 2 + len % 3))
+                        }
                         0 => None,
                         1 => Some((body_bytes(999, 6 * s + 5), szx, 1 + (len % 6))), // longer
                         2 => Some((body_bytes(998, 2 * s), szx, 1)),                 // shorter
@@ -948,11 +1034,24 @@ pub fn run_c09(ctx: &mut Ctx) {
             _ => r.usize_below(6 * s).min(5000),
         };
         let len = if level == 0 { len.min(300) } else { len };
+        let new_body = body_bytes(r.next_u64(), len);
         let abandoned = if r.bool() {
             let aszx = if r.chance(2, 3) { szx } else { r.below(7) as u8 };
             let blocks = r.urange(1, 6);
             let alen = szx_size(aszx) * blocks + r.usize_below(40);
-            Some((body_bytes(r.next_u64(), alen), aszx, blocks))
+            let mut a = body_bytes(r.next_u64(), alen);
+            if r.chance(1, 3) {
+                // the abandoned body shares a prefix of whole blocks (or everything but one byte) with the new one
+                let share = match r.below(3) {
+                    0 => s,
+                    1 => s * r.urange(1, 3),
+                    _ => new_body.len().saturating_sub(1),
+                }
+                .min(a.len())
+                .min(new_body.len());
+                a[..share].copy_from_slice(&new_body[..share]);
+            }
+            Some((a, aszx, blocks))
         } else {
             None
         };
@@ -963,7 +1062,7 @@ pub fn run_c09(ctx: &mut Ctx) {
             vec![]
         };
         let path: Vec<String> = (0..r.urange(1, 3)).map(|i| format!("p{}", i)).collect();
-        let cfg = UlCfg { ep: r.below(3) as u32, path, body: body_bytes(r.next_u64(), len), szx, dups: (0..3).map(|_| r.urange(1, 3) as u8).collect(), tkl: r.usize_below(9), abandoned, extra, code: *r.pick(&[2u8, 3, 5, 6]), extra_from: 0 };
+        let cfg = UlCfg { ep: r.below(3) as u32, path, body: new_body, szx, dups: (0..3).map(|_| r.urange(1, 3) as u8).collect(), tkl: r.usize_below(9), abandoned, extra, code: *r.pick(&[2u8, 3, 5, 6]), extra_from: 0 };
         let pathrefs: Vec<&str> = cfg.path.iter().map(|s| s.as_str()).collect();
         let mut probe = ReqSpec::new(cfg.code, &pathrefs);
         probe.block1 = Some((400, true, szx));
@@ -1183,6 +1282,8 @@ pub fn run_c10(ctx: &mut Ctx) {
         }
         rep.distinct(mix(&[0xB1, szx as u64, fits as u64, (m - overhead).min(1100) as u64 / 8]));
     }
+    run_sessions(rep, &mut r, (budget / 2).max(if level == 0 { 2 } else { 40 }), level, Scope::Budget, &mut ids);
+    rep.floor("session_transfers_with_upload_phase", 1);
     rep.floor("edge_of_fragmentation_cases", 10);
     rep.floor("transfers_fragmented", 10);
     rep.floor("transfers_unfragmented", 5);
